@@ -1703,6 +1703,19 @@ fn check_field_offsets(file: &File, scope: &Scope, schema: &Schema) -> Result<()
 
         for field in decl.fields() {
             match &field.desc {
+                // Optional fields are not packed with the surrounding bit-fields.
+                _ if field.cond.is_some() => {
+                    if offset % 8 != 0 {
+                        diagnostics.push(
+                            Diagnostic::error()
+                                .with_code(ErrorCode::InvalidFieldOffset)
+                                .with_message(
+                                    "optional field is not aligned to an octet boundary".to_owned(),
+                                )
+                                .with_labels(vec![field.loc.primary()]),
+                        )
+                    }
+                }
                 FieldDesc::Typedef { type_id, .. }
                     if matches!(
                         scope.typedef.get(type_id),
